@@ -567,6 +567,10 @@ def _has_default(fi, name):
 _NCC = {}
 
 
+def _dictlike(t):
+    return t[0] == 'dict' or (t[0] == 'if' and _dictlike(t[2]) and _dictlike(t[3]))
+
+
 _NON_NONE_BUILTINS = ('list', 'tuple', 'sorted', 'len', 'dict', 'set', 'frozenset', 'str', 'int', 'sum', 'bool', 'float', 'abs')
 
 
@@ -849,6 +853,11 @@ class FuncLower:
                         eff = self.assign(it.optional_vars, call(G('__enter__'), [lw.e(it.context_expr)]), lw, eff)
                 eff = eff + (('expr', call(G('__with__'), items)),)
                 return self.block(list(st.body) + rest, lw, eff)
+            if isinstance(st, ast.Try) and st.orelse and not st.finalbody and all(
+                    isinstance(b, ast.Assign) and len(b.targets) == 1 and isinstance(b.targets[0], ast.Name)
+                    and isinstance(b.value, (ast.Constant, ast.Name)) for b in st.orelse):
+                # `else:` of plain constant / name bindings cannot raise: it is the tail of the try body
+                st = ast.Try(body=list(st.body) + list(st.orelse), handlers=st.handlers, orelse=[], finalbody=[])
             if isinstance(st, ast.Try) and self._simple_try(st):
                 # try: <expression statements / simple assignments>  except: <simple assignments>   -> value-level try terms
                 body_lw = lw.clone()
@@ -930,6 +939,10 @@ class FuncLower:
             if isinstance(st, (ast.For, ast.While)):
                 return self.loop(st, rest, lw, eff)
             if isinstance(st, ast.Break):
+                if self._break_ret is not None:
+                    # the loop is followed by nothing but `return E`: leaving it here is returning E with the current values
+                    v = lw.e(self._break_ret.value) if self._break_ret.value is not None else NONE
+                    return ('ret', self.finish(v, lw), eff)
                 return ('break', self.snapshot(lw), eff)
             if isinstance(st, ast.Continue):
                 return ('continue', self.snapshot(lw), eff)
@@ -1030,6 +1043,7 @@ class FuncLower:
 
     _in_loop_body = False
     _loop_names = ()
+    _break_ret = None
 
     _loop_pos = {}
 
@@ -1117,10 +1131,14 @@ class FuncLower:
             self.assign(st.target, ('phi', idx, '$item'), bl2, ())
         else:
             head = ('while', bl.e(st.test))
-        saved = (self._in_loop_body, self._loop_names)
+        saved = (self._in_loop_body, self._loop_names, self._break_ret)
         self._in_loop_body, self._loop_names = True, tuple(assigned)
+        live = [r for r in rest if isinstance(r, ast.AST) and not (_is_doc(r) or isinstance(r, ast.Pass) or
+                (isinstance(r, ast.Expr) and isinstance(r.value, ast.Call) and _observational(r.value)))]
+        self._break_ret = live[0] if (len(live) == 1 and len(live) == len([r for r in rest if isinstance(r, ast.AST)]) - 0 * 1
+                                      and isinstance(live[0], ast.Return) and not st.orelse and not saved[0]) else None
         body = self.block(list(st.body), bl, ())
-        self._in_loop_body, self._loop_names = saved
+        self._in_loop_body, self._loop_names, self._break_ret = saved
         if isinstance(st, ast.For) and not st.orelse:
             summ = self._summarise_for(idx, assigned, pos, lw, head[1], body, rest)
             if summ is not None:
@@ -1297,6 +1315,8 @@ def norm(t):
         return norm_call(t[1], list(t[2]), list(t[3]))
     if k == 'map':
         f, xs = t[1], t[2]
+        if xs == ('list', ()):
+            return xs
         if xs[0] == 'map':
             g = xs[1]
             return norm(('map', _lam1(lambda x: apply(f, [apply(g, [x])])), xs[2]))
@@ -1351,6 +1371,9 @@ def norm(t):
             else:
                 merged.append(p)
         merged = [p for p in merged if p != ('list', ())] or [('list', ())]
+        # map(f, A) ++ map(f, B) is map(f, A ++ B)
+        if len(merged) >= 2 and all(p[0] == 'map' for p in merged) and all(aeq(p[1], merged[0][1]) for p in merged[1:]):
+            return norm(('map', merged[0][1], ('concat', tuple(p[2] for p in merged))))
         return merged[0] if len(merged) == 1 else ('concat', tuple(merged))
     if k == 'zip':
         parts = _splice(t[1])
@@ -1404,6 +1427,11 @@ def norm(t):
             return t[2] if c[1] else t[3]
         if t[2] == t[3]:
             return t[2]
+        # (map(f, A) if c else [])  is  map(f, A if c else [])  (and the mirrored form)
+        if t[2][0] == 'map' and t[3] == ('list', ()):
+            return ('map', t[2][1], ('if', c, t[2][2], ('list', ())))
+        if t[3][0] == 'map' and t[2] == ('list', ()):
+            return ('map', t[3][1], ('if', c, ('list', ()), t[3][2]))
         return t
     if k == 'cmp':
         a, b = t[2], t[3]
@@ -1443,8 +1471,14 @@ def norm(t):
         return t
     if k == 'binop':
         op, a, b = t[1], t[2], t[3]
-        # d1 | d2 on dicts is {**d1, **d2}
-        if op == 'BitOr' and (a[0] == 'dict' or b[0] == 'dict'):
+        if op == 'MatMult':
+            return norm_call(G('numpy.matmul'), [a, b], [])           # a @ b
+        # d1 | d2 on dicts is {**d1, **d2}; a conditional operand is lifted out first
+        if op == 'BitOr' and (_dictlike(a) or _dictlike(b)):
+            if a[0] == 'if' and _dictlike(a):
+                return norm(('if', a[1], ('binop', 'BitOr', a[2], b), ('binop', 'BitOr', a[3], b)))
+            if b[0] == 'if' and _dictlike(b):
+                return norm(('if', b[1], ('binop', 'BitOr', a, b[2]), ('binop', 'BitOr', a, b[3])))
             return norm(('dict', (('dstar', a), ('dstar', b))))
         if a[0] == 'const' and b[0] == 'const' and isinstance(a[1], (int, float)) and isinstance(b[1], (int, float)):
             try:
@@ -1524,6 +1558,11 @@ def norm(t):
         if e is not None:
             return norm(('lam', t[1], e))
         return t
+    if k == 'dict' and len(t[1]) >= 2 and t[1][0][0] == 'dstar' and t[1][0][1][0] == 'call' and all(kv[0] == 'kw' for kv in t[1][1:]):
+        base = t[1][0][1]
+        for kv in t[1][1:]:
+            base = ('setitem', base, kv[1], kv[2])
+        return norm(base)
     if k == 'dict' and any(kv[0] == 'dstar' for kv in t[1]):
         items = []
         for i, kv in enumerate(t[1]):
@@ -1680,6 +1719,21 @@ def norm_call(fn, args, kw):
             if args[0][0] == 'list':
                 return norm(('concat', args[0][1]))
             return ('flat', args[0])
+        # exact numpy synonyms (function form vs method form on an ndarray)
+        if g in ('numpy.any', 'numpy.all', 'numpy.sum', 'numpy.min', 'numpy.max', 'numpy.amin', 'numpy.amax') and args \
+                and args[0][0] not in ('star', 'dstar'):
+            name = {'amin': 'min', 'amax': 'max'}.get(g.split('.')[1], g.split('.')[1])
+            return norm_call(('attr', args[0], name), list(args[1:]), list(kw))
+        if g == 'issubclass' and len(args) == 2 and not kw and args[0][0] == 'attr' and args[0][2] == '__class__' \
+                and args[0][1][0] in ('tuple', 'list', 'dict', 'set'):
+            # the class of a display is known
+            kinds_ = [args[1]] if args[1][0] != 'tuple' else list(args[1][1])
+            if G(args[0][1][0]) in kinds_:
+                return C(True)
+        if g == 'itertools.filterfalse' and len(args) == 2 and not kw:
+            return norm(('filter', _lam1(lambda x: ('not', apply(args[0], [x]))), args[1]))
+        if g == 'numpy.transpose' and len(args) == 1 and not kw:
+            return ('attr', args[0], 'T')
         if g == 'zip' and not kw:
             return norm(('zip', tuple(args)))
         if g == 'maz.starzip' and len(args) == 1:
@@ -1689,6 +1743,8 @@ def norm_call(fn, args, kw):
             a, b = args[0][1]
             if args[0][2] in (('binop', 'Add', V(a), V(b)), ('concat', (V(a), V(b)))):
                 return ('flat', args[1])
+        if g == 'sum' and len(args) == 2 and args[1] == ('list', ()) and not kw:
+            return norm(('flat', args[0]))                  # sum(list_of_lists, []) concatenates
         if g == 'len' and len(args) == 1 and args[0][0] in ('list', 'tuple') and not any(x[0] == 'star' for x in args[0][1]):
             return C(len(args[0][1]))
         if g == 'dict.get' and len(args) >= 2:
@@ -1964,6 +2020,134 @@ def canon(t):
         return t
     if k == 'dict':
         return t
+    return t
+
+
+def _dt_safe(x):
+    """total and free of effects whatever the values are: names, constants, attribute chains, displays, identity / equality /
+    membership comparisons, boolean combinations, issubclass / isinstance / type, conditional expressions of such"""
+    if not is_node(x):
+        return False
+    k = x[0]
+    if k in ('var', 'const', 'glob', 'bv'):
+        return True
+    if k == 'attr':
+        return _dt_safe(x[1])
+    if k in ('tuple', 'list'):
+        return all(_dt_safe(y) for y in x[1])
+    if k == 'cmp':
+        return x[1] in ('Is', 'IsNot', 'Eq', 'NotEq', 'In', 'NotIn') and _dt_safe(x[2]) and _dt_safe(x[3])
+    if k in ('and', 'or'):
+        return all(_dt_safe(y) for y in x[1])
+    if k == 'not':
+        return _dt_safe(x[1])
+    if k == 'if':
+        return _dt_safe(x[1]) and _dt_safe(x[2]) and _dt_safe(x[3])
+    if k == 'call' and x[1] in (G('issubclass'), G('isinstance'), G('type')) and not x[3]:
+        return all(_dt_safe(y) for y in x[2])
+    return False
+
+
+def _dt_atom(c):
+    """(atom in positive form, negated?) of a safe condition that is not a boolean combination"""
+    if c[0] == 'cmp' and c[1] in ('IsNot', 'NotEq', 'NotIn'):
+        return ('cmp', {'IsNot': 'Is', 'NotEq': 'Eq', 'NotIn': 'In'}[c[1]], c[2], c[3]), True
+    return c, False
+
+
+def _dt_eval(c, val, atoms):
+    """truth of a safe condition under a valuation of its atoms (val None: only collect the atoms)"""
+    if c[0] == 'const':
+        return bool(c[1])
+    if c[0] == 'not':
+        return not _dt_eval(c[1], val, atoms)
+    if c[0] in ('and', 'or'):
+        rs = [_dt_eval(x, val, atoms) for x in c[1]]
+        return all(rs) if c[0] == 'and' else any(rs)
+    if c[0] == 'cmp' and c[1] in ('Eq', 'NotEq') and all(y[0] in ('and', 'or', 'not', 'cmp') for y in (c[2], c[3])):
+        # equality of two truth values
+        r = _dt_eval(c[2], val, atoms) == _dt_eval(c[3], val, atoms)
+        return r if c[1] == 'Eq' else not r
+    a, neg = _dt_atom(c)
+    atoms.add(a)
+    if val is None:
+        return False
+    return val[a] != neg
+
+
+def _decision_tree(t):
+    """Nested conditionals whose tests are boolean combinations of total, effect-free atoms (2 to 6 of them) are rebuilt as the
+    reduced decision tree over the atoms in a fixed order, with conditional expressions over the same atoms inside the leaves
+    resolved per branch: every restructuring of one decision table (merged / split / swapped / re-nested tests, a test moved
+    into a conditional expression) has one form. A test that is anything else is a leaf of the table."""
+    atoms = set()
+
+    def scan(x):
+        if x[0] == 'if' and _dt_safe(x[1]):
+            _dt_eval(x[1], None, atoms)
+            scan(x[2])
+            scan(x[3])
+    if t[0] != 'if' or not _dt_safe(t[1]):
+        return None
+    scan(t)
+    if not 2 <= len(atoms) <= 6:
+        return None
+    order = sorted(atoms, key=_key)
+
+    def spec(x, val):
+        """the term under the valuation: decided conditionals are resolved"""
+        def f(y):
+            if y[0] == 'if' and _dt_safe(y[1]):
+                local = set()
+                _dt_eval(y[1], None, local)
+                if local <= atoms:
+                    return spec(y[2] if _dt_eval(y[1], val, set()) else y[3], val)
+            return None
+        return replace(x, f)
+
+    def feasible(val):
+        """cheap contradictions between atoms: e == c and e == c' (c != c'); e is None and e == c / issubclass(e.__class__, ..)"""
+        eqs, none, typed = {}, set(), set()
+        for a in order:
+            if not val[a]:
+                continue
+            if a[0] == 'cmp' and a[1] in ('Eq', 'Is') and (a[2][0] in ('const', 'tuple')) != (a[3][0] in ('const', 'tuple')):
+                e_, k_ = (a[3], a[2]) if a[2][0] in ('const', 'tuple') else (a[2], a[3])
+                if k_ == NONE:
+                    none.add(e_)
+                else:
+                    if e_ in eqs and eqs[e_] != k_:
+                        return False
+                    eqs[e_] = k_
+            if a[0] == 'call' and a[1] in (G('issubclass'), G('isinstance')) and a[2]:
+                x = a[2][0]
+                typed.add(x[1] if (x[0] == 'attr' and x[2] == '__class__') else x)
+        return not (none & set(eqs)) and not (none & typed)
+
+    def build(i, val):
+        if i == len(order):
+            return norm(spec(t, val)) if feasible(val) else None
+        hi = build(i + 1, dict(val) | {order[i]: True})
+        lo = build(i + 1, dict(val) | {order[i]: False})
+        if hi is None:
+            return lo
+        if lo is None or hi == lo:
+            return hi
+        return ('if', order[i], hi, lo)
+    return build(0, {})
+
+
+def dtree(t):
+    """statement-level decision tables of a (normalised, named) function term in their reduced ordered form"""
+    if not is_node(t):
+        return t
+    if t[0] == 'if':
+        r = _decision_tree(t)
+        if r is not None:
+            return r
+        return ('if', t[1], dtree(t[2]), dtree(t[3]))
+    if t[0] in ('tuple', 'try', 'after_try', 'handler'):
+        return mapt(dtree, t)
     return t
 
 
